@@ -156,7 +156,7 @@ def extract() -> dict:
             "txnBumpsLocalVersion": _bumps_local_version(f_txn, "stage"),
             "taskBumpsLocalVersion": _bumps_local_version(f_up, "task"),
             "storeCommits": _calls(f_store, "commit") == 1,
-            "storeRollsBackOnConflict": _calls(f_store, "rollback") > 0,
+            "storeRollsBackOnConflict": _calls(f_store, "rollback") >= 2,   # after a missed stage CAS and after a failed upsert_task
             "txnStoreStageCommits": _calls(f_txn, "commit") > 0,
             "txnContextRollsBackOnException": "conn.rollback()" in ctx_src and "rollback_versions()" in ctx_src,
         },
